@@ -133,9 +133,12 @@ def inject(block, fault, rng):
             return None
         s = rng.choice(sorted(srcs, key=lambda w: w.name))
         if s.bitwidth == d.bitwidth:
-            block.logic.add(LN('w', None, (s,), (d,)))
+            extra = LN('w', None, (s,), (d,))
         else:
-            block.logic.add(LN('s', tuple(range(d.bitwidth)), (s,), (d,)))
+            extra = LN('s', tuple(range(d.bitwidth)), (s,), (d,))
+        if extra in block.logic:   # identical to the existing driver: a set would swallow it
+            return None
+        block.logic.add(extra)
         return 'second driver for %s' % d.name
     if fault == 'read_never_driven':
         n = rng.choice(sites(block, lambda n: len(n.args) >= 1))
